@@ -41,6 +41,7 @@ class Rec(object):
         self.released = False
         self.selfcycle = kw.get("dkind") in ("cycle", "re_release", "re_gcnone")
         self.k = kw.get("k")            # handle: which python object
+        self.link = None                # gc: object id referenced from the destructor's closure
 
 
 class Sys(object):
@@ -72,6 +73,9 @@ class Sys(object):
         self.ba = _BA(b"0123456789ab")
         self.pyobjs = [_Obj("o0"), _Obj("o1")]
         self.err = None
+        for op in cfg.get("prebuilt", ()):       # start from a non-initial state
+            if self._apply(tuple(op)) is not None:
+                raise InfraError("prebuilt state failed")
 
     # ---- model helpers ----------------------------------------------------
     def _new_id(self):
@@ -93,6 +97,8 @@ class Sys(object):
                 continue
             seen.add(o)
             r = self.recs[o]
+            if r.kind == "gc" and r.link is not None and not (r.released or r.cancelled or r.ran):
+                stack.append(r.link)      # destructor closure -> linked object (while the destructor is held)
             if r.kind == "gc" and r.released:
                 continue          # release() finalises the wrapper: it drops its reference to the target
             if r.kind in ("gc", "alias") and r.target is not None:
@@ -121,6 +127,10 @@ class Sys(object):
                 ops.append(("alias", i))
             if k == "gc":
                 ops.append(("gcnone", i))
+                if r.link is None and not (r.released or r.cancelled or r.ran):
+                    for j in range(NSLOT):
+                        if j != i and kinds[j] == "gc":
+                            ops.append(("link", i, j))
             if k in ("news", "newa", "newp", "gc", "fb"):
                 ops.append(("release", i))
                 ops.append(("with", i))
@@ -212,7 +222,11 @@ class Sys(object):
             if dk != "plain":
                 cell[0] = w
             self.recs[oid] = Rec(oid, "gc", target=self.mslots[i], dkind=dk)
-            self._cells = getattr(self, "_cells", {})
+            d.link_cell = cell2 = _Cell()     # a strong reference held ONLY by the destructor function
+            if not hasattr(self, "_cells"):
+                import weakref
+                self._cells = weakref.WeakValueDictionary()
+            self._cells[oid] = cell2
             self.slots[j] = w
             self.mslots[j] = oid
             del w
@@ -230,6 +244,12 @@ class Sys(object):
             j = self._free_slot()
             self.slots[j] = self.slots[i]
             self.mslots[j] = self.mslots[i]
+            return None
+        if k == "link":
+            i, j = op[1], op[2]
+            oi = self.mslots[i]
+            self._cells[oi].ref = self.slots[j]    # destructor of i now keeps the object in slot j alive
+            self.recs[oi].link = self.mslots[j]
             return None
         if k == "gcnone":
             r = self.recs[self.mslots[op[1]]]
@@ -398,6 +418,10 @@ class Sys(object):
         return info
 
 
+class _Cell(object):
+    ref = None
+
+
 class _BA(bytearray):
     pass
 
@@ -423,18 +447,23 @@ def setup():
 
 def run(ctx):
     setup()
+    chain = [["news"], ["gc", 0, "plain"], ["gc", 1, "plain"]]
     if ctx.quick:
-        plan = [("full", 3, 3), ("core", 4, 2)]
+        plan = [("full", 3, 3, None), ("core", 4, 2, None), ("core", 3, 3, chain)]
     else:
-        plan = [("full", 4, 3), ("core", 5, 3)]
+        plan = [("full", 4, 3, None), ("core", 5, 3, None), ("full", 3, 3, chain), ("core", 4, 3, chain)]
     total = hist.Stats()
     crashes_all = []
-    for alpha, depth, d0 in plan:
+    for alpha, depth, d0, pre in plan:
         cfgs = [{"collect_every": False, "alpha": alpha}, {"collect_every": True, "alpha": alpha}]
+        if pre:
+            # the same search from a state that already holds a chain x <- gc(x) <- gc(gc(x))
+            for c in cfgs:
+                c["prebuilt"] = pre
         st, crashes = hist.run_parallel(Sys, cfgs, depth, d0, split=1)
         total.merge(st)
         crashes_all.extend(crashes)
-        ctx.count("transitions_%s_depth%d" % (alpha, depth), st.transitions)
+        ctx.count("transitions_%s_depth%d%s" % (alpha, depth, "_from_chain" if pre else ""), st.transitions)
     for (item, cr, last) in crashes_all:
         ctx.violation({"kind": "crash"}, {"cfg": item[0], "prefix": item[1], "last_history": last, "how": cr.describe()})
     for h, info in total.violations:
@@ -451,12 +480,13 @@ def run(ctx):
         "traces_validated_against_impl": total.transitions,
         "max_depth": total.max_depth,
         "unmerged_depth_d0": {"full alphabet": plan[0][2], "core alphabet": plan[1][2]},
+        "initial_states": ["empty", "chain x <- gc(x) <- gc(gc(x))"],
         "merged_states_skipped": total.merged,
         "histories_closed": total.histories_closed,
         "evaluations": total.transitions, "distinct_nontrivial": total.states,
         "rule": "a state is an operation history (merged by model key beyond d0); every transition executes the real "
                 "operation on fresh real objects and the counting model in lock-step",
-        "plan": [{"alphabet": a, "depth": d, "d0": z} for a, d, z in plan],
+        "plan": [{"alphabet": a, "depth": d, "d0": z, "from_chain": bool(pre)} for a, d, z, pre in plan],
         "exhaustive": True,
     }
     return ctx.finish(cov, ["CPython refcounting + explicit gc.collect() only (automatic GC disabled during the search)"])
